@@ -185,7 +185,26 @@ func (r *Recorder) eventFor(point string, s *scorch.Scorch, args []interface{}) 
 		return "PersistTake", map[string]any{"snap": snapJSON(arg(0).(scorch.VerifSnap)), "nacks": args[1], "ncbs": args[2]}
 	case "persist.committed":
 		sn := arg(0).(scorch.VerifSnap)
-		return "PersistCommitted", map[string]any{"epoch": int(sn.Epoch), "files": strs(args[1]), "snap": snapJSON(sn)}
+		ev := map[string]any{"epoch": int(sn.Epoch), "files": strs(args[1]), "snap": snapJSON(sn)}
+		// what the metadata store now names under this epoch (read in the persister's own
+		// goroutine right after its commit): segment ids parsed from the file names
+		if s != nil {
+			if bf, err := s.VerifBoltFiles(); err == nil {
+				ids := []any{}
+				for _, f := range bf[sn.Epoch] {
+					if n, perr := strconv.ParseUint(strings.TrimSuffix(f, ".zap"), 16, 64); perr == nil {
+						ids = append(ids, int(n))
+					}
+				}
+				ev["boltids"] = ids
+			}
+		}
+		segids := []any{}
+		for _, sg := range sn.Segs {
+			segids = append(segids, int(sg.ID))
+		}
+		ev["segids"] = segids
+		return "PersistCommitted", ev
 	case "persist.unmarked":
 		sn := arg(0).(scorch.VerifSnap)
 		return "PersistUnmarked", map[string]any{"epoch": int(sn.Epoch), "files": strs(args[1])}
